@@ -48,6 +48,7 @@ type room struct {
 	now     time.Time
 	tsPool  []time.Time
 	forks   int
+	alt     gmsl.PDU // a second create event for the same room ID (C09 histories)
 }
 
 func uidFor(roomID spec.RoomID, sender spec.SenderID) (*spec.UserID, error) {
